@@ -1,8 +1,9 @@
 (* Definitional big-step evaluator for the core language (written from docs/language-spec.md,
    not from the compiler).  Executable; explicit fuel; output trace; outcome classes.
    Definitions only. *)
-From Coq Require Import ZArith NArith String Ascii List Bool.
+From Coq Require Import ZArith NArith String Ascii List Bool Floats.
 From Aelys Require Import Model.Lang.
+From Aelys Require Model.VmArith.
 Import ListNotations.
 Local Open Scope string_scope.
 Local Open Scope Z_scope.
@@ -135,24 +136,59 @@ Definition value_eqb (a b : value) : option bool :=
   | _, _ => None        (* floats / references: outside the modelled fragment *)
   end.
 
+(* floats: IEEE-754 binary64 on bit patterns (codec and kernels of Model/VmArith.v);
+   an int operand of a float operation is promoted *)
+Definition is_flt (v : value) : bool := match v with VFlt _ => true | _ => false end.
+Definition to_float (v : value) : option float :=
+  match v with
+  | VFlt b => Some (VmArith.f_of_bits b)
+  | VInt n => Some (VmArith.f_of_int n)
+  | _ => None
+  end.
+Definition aop_of (op : binop) : option VmArith.aop :=
+  match op with
+  | BAdd => Some VmArith.AAdd | BSub => Some VmArith.ASub | BMul => Some VmArith.AMul | BDiv => Some VmArith.ADiv | BMod => Some VmArith.AMod
+  | _ => None
+  end.
+Definition cop_of (op : binop) : option VmArith.cop :=
+  match op with
+  | BEq => Some VmArith.CEq | BNe => Some VmArith.CNe | BLt => Some VmArith.CLt | BLe => Some VmArith.CLe | BGt => Some VmArith.CGt | BGe => Some VmArith.CGe
+  | _ => None
+  end.
+Definition float_binop (op : binop) (x y : float) : res value :=
+  match aop_of op with
+  | Some o => ROk (VFlt (VmArith.float_arith o x y))
+  | None =>
+      match cop_of op with
+      | Some c => ROk (VBool (VmArith.float_cmp c x y))
+      | None => RErr EType
+      end
+  end.
+
 Definition eval_binop (op : binop) (a b : value) : res value :=
   match a, b with
   | VInt x, VInt y => int_binop op x y
   | _, _ =>
+      if is_flt a || is_flt b then
+        match to_float a, to_float b with
+        | Some x, Some y => float_binop op x y
+        | _, _ =>
+            match op with
+            | BEq => ROk (VBool false)
+            | BNe => ROk (VBool true)
+            | _ => RErr EType
+            end
+        end
+      else
       match op with
       | BEq => match value_eqb a b with Some r => ROk (VBool r) | None => RErr EUnsupported end
       | BNe => match value_eqb a b with Some r => ROk (VBool (negb r)) | None => RErr EUnsupported end
       | BAdd =>
           match a, b with
           | VStr x, VStr y => ROk (VStr (x ++ y))
-          | VFlt _, _ | _, VFlt _ => RErr EUnsupported
           | _, _ => RErr EType
           end
-      | _ =>
-          match a, b with
-          | VFlt _, _ | _, VFlt _ => RErr EUnsupported
-          | _, _ => RErr EType
-          end
+      | _ => RErr EType
       end
   end.
 
@@ -161,7 +197,8 @@ Definition eval_unop (op : unop) (a : value) : res value :=
   | UNeg, VInt x => ROk (VInt (wrap48 (- x)))
   | UBitNot, VInt x => ROk (VInt (wrap48 (- x - 1)))
   | UNot, v => ROk (VBool (negb (truthy v)))
-  | _, VFlt _ => RErr EUnsupported
+  | UNeg, VFlt b => ROk (VFlt (VmArith.bits_of_f (- VmArith.f_of_bits b)%float))
+  | _, VFlt _ => RErr EType
   | _, _ => RErr EType
   end.
 
